@@ -16,6 +16,9 @@ Model/Chunk.vos Model/Chunk.vok Model/Chunk.required_vos: Model/Chunk.v Lib/NumO
 Model/ChunkCases.vo Model/ChunkCases.glob Model/ChunkCases.v.beautified Model/ChunkCases.required_vo: Model/ChunkCases.v Lib/NumOps.vo Lib/B64.vo Gen/GenChunk.vo Model/Chunk.vo
 Model/ChunkCases.vio: Model/ChunkCases.v Lib/NumOps.vio Lib/B64.vio Gen/GenChunk.vio Model/Chunk.vio
 Model/ChunkCases.vos Model/ChunkCases.vok Model/ChunkCases.required_vos: Model/ChunkCases.v Lib/NumOps.vos Lib/B64.vos Gen/GenChunk.vos Model/Chunk.vos
+Model/Conf.vo Model/Conf.glob Model/Conf.v.beautified Model/Conf.required_vo: Model/Conf.v Lib/NumOps.vo Gen/GenProto.vo Model/Core.vo
+Model/Conf.vio: Model/Conf.v Lib/NumOps.vio Gen/GenProto.vio Model/Core.vio
+Model/Conf.vos Model/Conf.vok Model/Conf.required_vos: Model/Conf.v Lib/NumOps.vos Gen/GenProto.vos Model/Core.vos
 Model/Core.vo Model/Core.glob Model/Core.v.beautified Model/Core.required_vo: Model/Core.v Lib/NumOps.vo Gen/GenProto.vo
 Model/Core.vio: Model/Core.v Lib/NumOps.vio Gen/GenProto.vio
 Model/Core.vos Model/Core.vok Model/Core.required_vos: Model/Core.v Lib/NumOps.vos Gen/GenProto.vos
@@ -34,6 +37,12 @@ Proofs/CoreResult.vos Proofs/CoreResult.vok Proofs/CoreResult.required_vos: Proo
 Proofs/SortRecovers.vo Proofs/SortRecovers.glob Proofs/SortRecovers.v.beautified Proofs/SortRecovers.required_vo: Proofs/SortRecovers.v 
 Proofs/SortRecovers.vio: Proofs/SortRecovers.v 
 Proofs/SortRecovers.vos Proofs/SortRecovers.vok Proofs/SortRecovers.required_vos: Proofs/SortRecovers.v 
+Props/C01.vo Props/C01.glob Props/C01.v.beautified Props/C01.required_vo: Props/C01.v Lib/NumOps.vo Gen/GenChunk.vo Model/Chunk.vo Proofs/ChunkPartition.vo Gen/GenProto.vo Model/Core.vo Spec/ProtoSpec.vo Proofs/CoreCons.vo Proofs/CoreResult.vo Proofs/SortRecovers.vo
+Props/C01.vio: Props/C01.v Lib/NumOps.vio Gen/GenChunk.vio Model/Chunk.vio Proofs/ChunkPartition.vio Gen/GenProto.vio Model/Core.vio Spec/ProtoSpec.vio Proofs/CoreCons.vio Proofs/CoreResult.vio Proofs/SortRecovers.vio
+Props/C01.vos Props/C01.vok Props/C01.required_vos: Props/C01.v Lib/NumOps.vos Gen/GenChunk.vos Model/Chunk.vos Proofs/ChunkPartition.vos Gen/GenProto.vos Model/Core.vos Spec/ProtoSpec.vos Proofs/CoreCons.vos Proofs/CoreResult.vos Proofs/SortRecovers.vos
+Props/C02.vo Props/C02.glob Props/C02.v.beautified Props/C02.required_vo: Props/C02.v Lib/NumOps.vo Gen/GenProto.vo Model/Core.vo Spec/ProtoSpec.vo Proofs/CoreCons.vo Proofs/CoreResult.vo
+Props/C02.vio: Props/C02.v Lib/NumOps.vio Gen/GenProto.vio Model/Core.vio Spec/ProtoSpec.vio Proofs/CoreCons.vio Proofs/CoreResult.vio
+Props/C02.vos Props/C02.vok Props/C02.required_vos: Props/C02.v Lib/NumOps.vos Gen/GenProto.vos Model/Core.vos Spec/ProtoSpec.vos Proofs/CoreCons.vos Proofs/CoreResult.vos
 Props/C14.vo Props/C14.glob Props/C14.v.beautified Props/C14.required_vo: Props/C14.v Lib/NumOps.vo Gen/GenChunk.vo Model/Chunk.vo Spec/ChunkSpec.vo Proofs/ChunkPartition.vo Proofs/ChunkSizes.vo
 Props/C14.vio: Props/C14.v Lib/NumOps.vio Gen/GenChunk.vio Model/Chunk.vio Spec/ChunkSpec.vio Proofs/ChunkPartition.vio Proofs/ChunkSizes.vio
 Props/C14.vos Props/C14.vok Props/C14.required_vos: Props/C14.v Lib/NumOps.vos Gen/GenChunk.vos Model/Chunk.vos Spec/ChunkSpec.vos Proofs/ChunkPartition.vos Proofs/ChunkSizes.vos
